@@ -64,7 +64,7 @@ TmOf(cfg, prev, now) ==
 (* projections                                                             *)
 
 ObsDb(o) ==
-    [towers |-> {[t |-> r.t, port |-> 0, slots |-> r.slots] : r \in SetOf(o.towers)},
+    [towers |-> {[t |-> r.t, port |-> r.addr, slots |-> r.slots] : r \in SetOf(o.towers)},
      regs |-> {[t |-> r.t, slots |-> r.slots, start |-> r.start, expiry |-> r.expiry] : r \in SetOf(o.regs)},
      rcpts |-> {[t |-> r.t, l |-> r.l, ok |-> r.ok] : r \in SetOf(o.rcpts)},
      pend |-> {Ref(r.t, r.l) : r \in SetOf(o.pend)},
@@ -72,7 +72,7 @@ ObsDb(o) ==
      bodies |-> SetOf(o.bodies),
      proofs |-> {Ref(r.t, r.l) : r \in SetOf(o.proofs)}]
 
-ObsMem(m) == {[t |-> x.t, port |-> 0, slots |-> x.slots, start |-> x.start, expiry |-> x.expiry, status |-> x.status,
+ObsMem(m) == {[t |-> x.t, port |-> x.addr, slots |-> x.slots, start |-> x.start, expiry |-> x.expiry, status |-> x.status,
                pending |-> SetOf(x.pending), invalid |-> SetOf(x.invalid)] : x \in SetOf(m)}
 
 DbFields == {"towers", "regs", "rcpts", "pend", "inv", "bodies", "proofs"}
@@ -203,7 +203,7 @@ R(e, C) ==
                Touch([mon EXCEPT !.cfg = e.cfg], Towers, e.ts))
       [] e.ev = "call" ->
            (CASE e.m = "notify" -> Res(UNION {NotifyCall(s, e.id, e.l) : s \in C}, {}, Touch(mon, Towers, e.ts))
-              [] e.m = "registertower" -> Res(UNION {RegCall(s, e.id, e.t) : s \in C}, {}, Touch(mon, {e.t}, e.ts))
+              [] e.m = "registertower" -> Res(UNION {RegCall(s, e.id, e.t, e.port) : s \in C}, {}, Touch(mon, {e.t}, e.ts))
               \* retrytower / abandontower take effect at some moment between the call and its answer: possibly at once
               [] e.m \in {"retrytower", "abandontower"} ->
                    Res(C \cup {[p[1] EXCEPT !.rpc = @ \cup {<<e.id, p[2]>>}] :
@@ -225,7 +225,8 @@ R(e, C) ==
                       ELSE Res({DropTask(s, e.id) : s \in C}, T("C14", "RegRecorded.answer_" \o want), mon))
               [] e.m = "retrytower" ->
                    Let1(Early(C, e) \cup {p[1] : p \in {q \in UNION {ManualRetry(s, e.t) : s \in Late(C, e)} : q[2] = e.res}}, LAMBDA B :
-                      IF B # {} THEN Res(B, {}, Touch(mon, {e.t}, e.ts))
+                      \* (an accepted retry starts over what a refused renewal had stopped: delivery is owed again)
+                      IF B # {} THEN Res(B, {}, [Touch(mon, {e.t}, e.ts) EXCEPT !.bad[e.t] = IF e.res = "ok" THEN @ \ {"renew"} ELSE @])
                       ELSE Res(C, T("C13", "ManualRetryGate.answer_" \o e.res), mon))
               [] e.m = "abandontower" ->
                    Let1(Early(C, e) \cup {p[1] : p \in {q \in UNION {Abandon(s, e.t) : s \in Late(C, e)} : q[2] = e.res}}, LAMBDA B :
@@ -274,6 +275,16 @@ R(e, C) ==
            Let1(ObsStep(C, eo, TmOf(mon.cfg, e.ts, e.ts)), LAMBDA o :
            Let1([ObsMon(eo, mon) EXCEPT !.lastObs = [db |-> eo.db, mem |-> eo.mem, memok |-> eo.memok, ts |-> eo.ts]], LAMBDA m2 :
            Let1(TimingTags(eo, m2)
+                \* C18 MemEqDisk, on the observation itself (rows and summaries are read consistently by the rig): what
+                \* listtowers lists as pending / invalid for a tower is what is stored
+                \cup (IF eo.memok /\ "MemEqDisk.sets" \notin mon.flagged
+                         /\ \E x \in SetOf(eo.mem) :
+                               \/ SetOf(x.pending) # {r.l : r \in {y \in SetOf(eo.db.pend) : y.t = x.t}}
+                               \/ SetOf(x.invalid) # {r.l : r \in {y \in SetOf(eo.db.inv) : y.t = x.t}}
+                      THEN T("C18", "MemEqDisk.pending_invalid_sets") ELSE {})
+                \cup (IF eo.memok /\ "MemEqDisk.addr" \notin mon.flagged
+                         /\ \E x \in SetOf(eo.mem) : \E r \in SetOf(eo.db.towers) : r.t = x.t /\ (r.addr # x.addr \/ r.slots # x.slots)
+                      THEN T("C18", "MemEqDisk.address_or_slots") ELSE {})
                 \* C14 RegRecorded, on the rows themselves: every stored registration receipt verifies under its tower id
                 \cup (IF "RegRecorded" \notin mon.flagged /\ \E r \in SetOf(eo.db.regs) : ~r.ok
                       THEN T("C14", "RegRecorded.unverifiable_receipt_stored") ELSE {}), LAMBDA tt :
@@ -282,7 +293,9 @@ R(e, C) ==
                                            \cup (IF \E y \in tt : y[3] = "Delivered.not_within_bound" THEN {"Delivered"} ELSE {})
                                            \cup (IF \E y \in tt : y[3] = "EndsUnreachable.not_within_bound" THEN {"EndsUnreachable"} ELSE {})
                                            \cup (IF \E y \in tt : y[3] = "RegRecorded.unverifiable_receipt_stored" THEN {"RegRecorded"} ELSE {})
-                                           \cup (IF \E y \in tt : y[3] = "EndsUnreachable.gave_up_early" THEN {"GaveUpEarly"} ELSE {})])))))
+                                           \cup (IF \E y \in tt : y[3] = "EndsUnreachable.gave_up_early" THEN {"GaveUpEarly"} ELSE {})
+                                           \cup (IF \E y \in tt : y[3] = "MemEqDisk.pending_invalid_sets" THEN {"MemEqDisk.sets"} ELSE {})
+                                           \cup (IF \E y \in tt : y[3] = "MemEqDisk.address_or_slots" THEN {"MemEqDisk.addr"} ELSE {})])))))
       [] e.ev = "probe" ->
            Let1({s \in C : e.answered = (s.alive /\ ~s.poisoned)}, LAMBDA B :
               IF B # {} THEN Res(B, {}, mon) ELSE Res(C, T("C14", "Survives.probe_not_answered"), mon))
